@@ -16,8 +16,8 @@ RULE = ("random operation sequences (5..60 ops) over a pool {base index, views, 
 TRUSTED = B.TRUSTED + ["pickle round trips are mapped to copy in the state machine (outputs do not depend on which)"]
 ASSUMPTIONS = B.ASSUMPTIONS
 EXPLANATION = ("Theorems (Props/C07.v): cache invariant preserved by every operation; under it every output equals the "
-               "history-free answer (generic form with two postings premises; premise-free C07_indexed_* for indexed "
-               "corpora on the boolean domain ops_in_domain). The check runs the state machine against the real objects "
+               "history-free answer (generic form with two postings premises; premise-free for every indexed corpus and EVERY "
+               "operation sequence: C07_every_output_is_history_free, C07_repeat_same, C07_history_free). The check runs the state machine against the real objects "
                "op by op and re-asks queries under other histories.")
 
 
